@@ -10,7 +10,7 @@ from scipy.linalg import norm
 from ..bodies import Earth
 from ..constants import PI
 from ..maths import fpe_equals, rot1, rot3
-from . import isEccentric, isInclined, wrapAngleHalfOpen
+from . import InclinationError, isEccentric, isInclined, wrapAngleHalfOpen
 from .anomaly import eccLong2MeanLong, meanLong2EccLong, meanLong2TrueAnom, trueAnom2MeanLong
 from .utils import (
     getAngularMomentum,
@@ -265,9 +265,14 @@ def eci2eqe(eci_state: ndarray, mu: float = Earth.mu, retro: bool = False) -> Or
     ang_momentum_vec = getAngularMomentum(pos_vec, vel_vec)
     w_hat = ang_momentum_vec / norm(ang_momentum_vec)
 
-    # Compute p, q equinoctial components
-    p = w_hat[0] / (1 + II * w_hat[2])
-    q = -w_hat[1] / (1 + II * w_hat[2])
+    # Compute p, q equinoctial components; they do not exist (division by zero) when the angular
+    #   momentum points exactly against the pole of the chosen (direct or retrograde) frame
+    if (pole_term := 1 + II * w_hat[2]) == 0.0:
+        if not retro:
+            raise InclinationError("Equatorial retrograde orbit, but retro!=True")
+        raise InclinationError("Equatorial direct orbit, but retro=True")
+    p = w_hat[0] / pole_term
+    q = -w_hat[1] / pole_term
 
     # Get equinoctial basis vectors using p, q. Already have w_hat
     f_hat, g_hat = getEquinoctialBasisVectors(p, q, retro=retro)
